@@ -89,6 +89,9 @@ def run(tier, seed, flavour="plain", prop="C12"):
         "observations_per_accessor": {k[9:]: v for k, v in sorted(cnt.items()) if k.startswith("accessor|")},
         "observations_per_identity": {k[9:]: v for k, v in sorted(cnt.items()) if k.startswith("identity|")},
         "observations_per_rebuild_pair": {k[8:]: v for k, v in sorted(cnt.items()) if k.startswith("rebuild|")},
+        "constructors_returning_nan(observations with NaN state / judged, by class)": {
+            k[len("nan_state|"):]: "%d / %d" % (v, cnt.get("ctor_by_class|" + k[len("nan_state|"):], 0))
+            for k, v in sorted(cnt.items()) if k.startswith("nan_state|")},
         "calls_per_overload": calls,
         "tensor_models": {k: v for k, v in sorted(cnt.items()) if k.startswith("tensor_model")},
         "max_error_in_bound_units(limit 4)": {
